@@ -432,6 +432,15 @@ class Resolver:
                     return Py(mt, _qual(mt))
         return None
 
+    def field_hint(self, key: RepoClass, attr: str):
+        """Raw dependency hint of attribute `attr` looked up along the MRO of a repo class."""
+        for e in self.mro(key):
+            if isinstance(e, Py):
+                h = self.member_hint(e.obj, attr)
+                if h is not None:
+                    return h
+        return None
+
     def member_hint(self, T, attr: str):
         """Declared (raw) type hint of attribute `attr` of dependency class T."""
         raw = inspect.getattr_static(T, attr, None)
@@ -594,8 +603,8 @@ class Scanner(ast.NodeVisitor):
                             ("loop", n.iter) if tg is n.target else None)
         loops = {}
         for name, ts in assigned.items():
-            if len(ts) == 1 and isinstance(ts[0], tuple) and ts[0][0] == "loop":
-                loops[name] = ts[0][1]
+            if all(isinstance(t, tuple) and t[0] == "loop" for t in ts):
+                loops[name] = [t[1] for t in ts]
                 continue
             ts = [None if isinstance(t, tuple) else t for t in ts]
             if name not in env and ts[0] is not None and all(t == ts[0] for t in ts):
@@ -606,14 +615,12 @@ class Scanner(ast.NodeVisitor):
         self.func_stack.append(node)
         self.env_stack.append(env)
         # `for v in <expr>` where <expr> is `recv.attr` with a dependency hint Iterator[T] / list[T]
-        for name, it in loops.items():
-            if name in env or not isinstance(it, ast.Attribute):
+        for name, its in loops.items():
+            if name in env:
                 continue
-            rt = self.type_of(it.value)
-            if isinstance(rt, Py):
-                et = self.res.element_type(self.res.member_hint(rt.obj, it.attr))
-                if et is not None:
-                    env[name] = Py(et, _qual(et))
+            ets = [self.iter_elem_type(it, node) for it in its]
+            if ets[0] is not None and all(e is ets[0] for e in ets):
+                env[name] = Py(ets[0], _qual(ets[0]))
         self.generic_visit(node)
         self.env_stack.pop()
         self.func_stack.pop()
@@ -633,6 +640,31 @@ class Scanner(ast.NodeVisitor):
             return None
         args = f.args.posonlyargs + f.args.args
         return args[0].arg if args else None
+
+    def iter_elem_type(self, it: ast.AST, fn: ast.AST, depth: int = 0):
+        """Element type (a dependency class) of the iterable expression `it`:
+        `recv.attr` with a dependency hint Sequence[T]/Iterator[T]/list[T], or a local name
+        assigned once from `[v for v in <such an iterable> if ...]`."""
+        if depth > 3:
+            return None
+        if isinstance(it, ast.Attribute):
+            rt = self.type_of(it.value)
+            if isinstance(rt, Py):
+                return self.res.element_type(self.res.member_hint(rt.obj, it.attr))
+            if isinstance(rt, tuple) and rt[0] == "self":
+                rt = rt[1].key
+            if isinstance(rt, RepoClass):
+                return self.res.element_type(self.res.field_hint(rt, it.attr))
+            return None
+        if isinstance(it, ast.Name):
+            defs = [n.value for n in ast.walk(fn) if isinstance(n, ast.Assign)
+                    and any(isinstance(t, ast.Name) and t.id == it.id for t in n.targets)]
+            if len(defs) == 1 and isinstance(defs[0], ast.ListComp) and len(defs[0].generators) == 1:
+                g = defs[0].generators[0]
+                if isinstance(g.target, ast.Name) and isinstance(defs[0].elt, ast.Name) \
+                        and defs[0].elt.id == g.target.id:
+                    return self.iter_elem_type(g.iter, fn, depth + 1)
+        return None
 
     def type_of(self, expr: ast.AST):
         """-> Py(class) | RepoClass | ("self", ClassInfo) | None"""
@@ -698,6 +730,19 @@ class Scanner(ast.NodeVisitor):
                 # plain functions receive self explicitly at the call site
                 self._check("inherit", node, raw, f"{_qual(definer.obj)}.{r[2]}", False)
             return
+        # obj(...) where obj is an instance of a (class deriving from a) dependency class
+        if r is None:
+            ti = self.type_of(f)
+            if isinstance(ti, RepoClass):
+                definer, raw = self.res.find_member(self.res.mro(ti), "__call__")
+                if isinstance(definer, Py) and _is_dep_module_name(getattr(definer.obj, "__module__", "")):
+                    self._check("inherit", node, raw, f"{_qual(definer.obj)}.__call__", True)
+                    return
+            elif isinstance(ti, Py) and not isinstance(f, ast.Call):
+                raw = inspect.getattr_static(ti.obj, "__call__", None)
+                if raw is not None and not isinstance(raw, type(object.__call__)):
+                    self._check("method", node, raw, f"{_qual(ti.obj)}.__call__", True)
+                    return
         # v.m(...) with an inferred receiver type
         if isinstance(f, ast.Attribute):
             t = self.type_of(f.value)
